@@ -1,7 +1,7 @@
 (* C19Run.v — executable comparison of Session.v with what the real session did in a forced
    scenario.  Evaluated by vm_compute on case files written by the Go harness (qv C19). *)
 From Coq Require Import List Arith Bool String.
-From QV Require Import Session SessionLife Facts.
+From QV Require Import Session SessionLife SessionView Facts.
 Import ListNotations.
 
 (* one scenario run in a child process.
@@ -125,9 +125,15 @@ Definition case_ok (cf : cfg) (c : scase) : bool :=
    harness waits until the closer has run).
    After each phase the harness records, per endpoint, the connections accepted so far, the
    connections still open and whether the pool holds a client for it. *)
-Inductive lphase := PBurst (eps : list nat) (sequential : bool) | PLose (a : nat).
-Record lobs := { lo_accepted : list nat; lo_open : list nat; lo_pooled : list bool }.
-Record lcase := { lc_fatal : bool; lc_phases : list (lphase * lobs); lc_ids : list (option nat) }.
+(* PRegs ops: a burst of changes of the directory, microseconds apart (RAdd s e g: service s
+   becomes ready behind endpoint e, its g-th registration; RDel s: it is removed), while the session
+   refreshes its list; then the directory stays quiet and the harness records the session's list
+   (lo_view: service -> (endpoint, registration count)) once it matches, or 3 s later.  The pool is
+   not touched.  lc_view0: the services registered when the session was created. *)
+Inductive rop := RAdd (s e g : nat) | RDel (s : nat).
+Inductive lphase := PBurst (eps : list nat) (sequential : bool) | PLose (a : nat) | PRegs (ops : list rop).
+Record lobs := { lo_accepted : list nat; lo_open : list nat; lo_pooled : list bool; lo_view : dir }.
+Record lcase := { lc_fatal : bool; lc_view0 : dir; lc_phases : list (lphase * lobs); lc_ids : list (option nat) }.
 
 Definition upto_dial_at (a : nat) (s : st) (i : nat) : outcome :=
   (fix go (n : nat) (s : st) : outcome :=
@@ -155,6 +161,7 @@ Definition phase_run (cf : cfg) (p : lphase) (s : st) : outcome :=
   match p with
   | PBurst eps sequential => burst_run cf eps sequential s
   | PLose a => lstep cf s (LLose a)
+  | PRegs _ => Run s
   end.
 
 Fixpoint list_eqb_bool (a b : list bool) : bool :=
@@ -182,10 +189,48 @@ Fixpoint life_go (cf : cfg) (cmp : bool) (ps : list (lphase * lobs)) (s : st) : 
       end
   end.
 
+(* ---------- the session's view of the directory along a life (SessionView.v) ---------- *)
+
+Definition apply_rop (d : dir) (o : rop) : dir :=
+  match o with RAdd s e g => dir_add s (e, g) d | RDel s => dir_del s d end.
+
+Definition vbind (o : option vst) (f : vst -> option vst) : option vst := match o with Some s => f s | None => None end.
+
+Fixpoint changes (ops : list rop) (v : vst) : option vst :=
+  match ops with
+  | [] => Some v
+  | o :: r => vbind (vstep loop_prog v (VChange (apply_rop (v_dir v) o))) (changes r)
+  end.
+
+(* the burst as the machine sees it: the first change, its signal is delivered, the loop takes it and
+   sends its Services() call, the directory answers; every further change happens after that
+   snapshot, its signal travels behind the reply; then the directory is silent (`settle`).  By
+   SessionViewProofs.view_quiescent the list at quiescence does not depend on this choice. *)
+Definition view_fuel := 200.
+Definition regs_run (ops : list rop) (v : vst) : option vst :=
+  match ops with
+  | [] => Some v
+  | o :: r =>
+      vbind (changes [o] v) (fun v1 =>
+      vbind (vexec loop_prog v1 [VDeliver; VLoop; VLoop; VAnswer]) (fun v2 =>
+      vbind (changes r v2) (settle loop_prog view_fuel)))
+  end.
+
+Fixpoint view_go (ps : list (lphase * lobs)) (v : vst) : bool :=
+  match ps with
+  | [] => true
+  | (PRegs ops, o) :: r =>
+      match regs_run ops v with
+      | Some v' => quiet v' && dir_eqb (v_list v') (v_dir v') && dir_eqb (v_list v') (lo_view o) && view_go r v'
+      | None => false
+      end
+  | _ :: r => view_go r v
+  end.
+
 Definition lcase_ok (cf : cfg) (c : lcase) : bool :=
   match life_go cf (negb (lc_fatal c)) (lc_phases c) linit with
   | Some Fatal => lc_fatal c
-  | Some (Run s) => negb (lc_fatal c) && all_done s && ids_ok s (lc_ids c)
+  | Some (Run s) => negb (lc_fatal c) && all_done s && ids_ok s (lc_ids c) && view_go (lc_phases c) (vinit (lc_view0 c))
   | _ => false
   end.
 
@@ -205,7 +250,11 @@ Fixpoint list_eqb_str (a b : list string) : bool :=
 (* what the source text says about the switch *)
 Definition source_says_defect : bool := list_eqb_str f_session_client (render (prog cfg_pinned)).
 
+(* what the source text says about the refresh loop *)
+Definition source_loop_is_model : bool := list_eqb_str f_session_update_loop (render_loop loop_prog).
+
 Definition mismatches (cf : cfg) (cs : list scase) (ls : list lcase) : list nat * list nat * list nat :=
   (bad_idx (case_ok cf) cs 0,
    bad_idx (lcase_ok cf) ls 0,
-   if Bool.eqb (runlock_after_lock cf) source_says_defect then [] else [0]).
+   (if Bool.eqb (runlock_after_lock cf) source_says_defect then [] else [0]) ++
+   (if source_loop_is_model then [] else [1])).
